@@ -7,6 +7,16 @@ interpreter against a small model of a SQLite connection whose schema is an abst
 `migrations/*.sql`.  Every starting point (fresh; every prefix of the scripts as a previous
 release would have left it; every legacy `user_version = j` database) is run exhaustively.
 
+"Any earlier schema" means a database produced by the migrations *as they were released*, not by today's
+files: a script that was already shipped is never executed again on a database that recorded it, so an edit
+to it reaches fresh databases only.  The committed baseline `fixtures/c28/baseline/sqlite.json` therefore
+holds, per released version k, the abstract database state (tables, columns, indexes, recorded versions,
+user_version) that this module's own interpreter computed from the scripts of the confirmed tree
+(`bin/gen_c28_baseline`; abstract states, no script text, no file names).  R4 starts from each of these
+states and applies the *current* scripts through the *current* runner; the end must be the schema of a fresh
+run.  The baseline is the only thing that makes an edited released script visible; it is regenerated only
+when a new release has shipped (new versions are appended, old ones never change).
+
 This module also hosts two helpers shared with C16 and C24 (the brief asks for shared helpers to
 live in a property module): `sqlmini` (tokenizer, parser, abstract schema, model database) and
 `XInterp` (the AST interpreter extended with objects, methods, `with`, `await`, `yield`).
@@ -777,8 +787,12 @@ class Schema:
             if tuple(a["pk"]) != tuple(b["pk"]):
                 out.append(f"table {n}: primary key {a['pk']} vs {b['pk']}")
         for n in sorted(set(self.indexes) | set(other.indexes)):
-            if self.indexes.get(n) != other.indexes.get(n):
-                out.append(f"index {n}: {self.indexes.get(n)} vs {other.indexes.get(n)}")
+            ia, ib = self.indexes.get(n), other.indexes.get(n)
+            if ia is None or ib is None:
+                x = ib if ia is None else ia
+                out.append(f"index {n} on {x[0]}({', '.join(x[1])}) {'missing' if ia is None else 'extra'}")
+            elif ia != ib:
+                out.append(f"index {n}: {ia} vs {ib}")
         return "; ".join(out) or "equal"
 
     def apply(self, st: dict, nonempty: bool = True) -> str | None:
@@ -2088,8 +2102,17 @@ EXPLANATION = (
     "R3: every *.sql file carries a version header that `parse_target_version` reads, versions are 1..N without duplicates in file-name "
     "order; every table/column named by SQL text in sqlite_workflow_store.py / sqlite_state_store.py and by the bookkeeping SQL of "
     "migrate.py exists in the final abstract schema. "
+    "R4 (released baseline): for every released version k of fixtures/c28/baseline/sqlite.json (abstract database states computed by this "
+    "module's interpreter from the scripts of the confirmed tree: tables, columns, indexes, schema_migrations rows, user_version; no script "
+    "text) and each form a deployment can have (tracked in schema_migrations; legacy `PRAGMA user_version = k` without schema_migrations; "
+    "legacy already bootstrapped), the interpreted current `run_migrations` over the *current* scripts meets no inapplicable statement, ends "
+    "in the abstract schema of the fresh run, records every current version once and a second run is a no-op. A script that a database has "
+    "recorded is never run again, so any edit of a released script that changes what it builds (statement moved between released scripts, "
+    "added, dropped, column definition changed) leaves upgraded databases different from fresh ones unless a new script compensates; comment/"
+    "layout edits, renamed files and compensating new scripts pass; scripts newer than the baseline only extend the fresh-run target. "
     "Not decided: SQLite's own behaviour (WAL fallback, locking, transactional DDL, executescript's implicit COMMIT are modelled, not verified); "
-    "databases whose schema was produced by anything other than these scripts; the Postgres migrations."
+    "databases whose schema was produced by anything other than these scripts or the released scripts of the baseline (R4 is as good as the "
+    "baseline: releases older than the confirmed tree are not in it); the Postgres migrations."
 )
 TRUSTED = [
     "CPython ast, re",
@@ -2205,9 +2228,114 @@ def _fresh() -> MiniDB:
     return db
 
 
-def analyse_set(repo: Any, ms: MigrationSet, label: str) -> dict:
-    """All R1/R2/R3-header verdicts for one migration set: {'problems': [(rule, instance, text)], 'checked': [...]}."""
-    res: dict = {"problems": [], "checked": [], "states": 0, "final": None}
+# ---------------------------------------------------------------------------- released baseline (R4)
+
+BASELINE_REL = FIXTURE_DIR + "/baseline/sqlite.json"
+BASELINE_FORMS = ("tracked", "legacy", "bootstrapped")
+_COL_FIELDS = ("name", "typ", "constraints", "notnull", "default", "has_default", "pk", "unique", "autoinc")
+
+
+def _enc(v: Any) -> Any:
+    if isinstance(v, tuple):
+        return {"tuple": [_enc(x) for x in v]}
+    if isinstance(v, list):
+        return [_enc(x) for x in v]
+    if isinstance(v, dict):
+        return {"dict": {str(k): _enc(x) for k, x in v.items()}}
+    if v is None or isinstance(v, (str, int, float, bool)):
+        return v
+    raise AnchorError(f"C28.R4: value {v!r} of the abstract state cannot be stored in the baseline")
+
+
+def _dec(v: Any) -> Any:
+    if isinstance(v, list):
+        return [_dec(x) for x in v]
+    if isinstance(v, dict):
+        if set(v) == {"tuple"}:
+            return tuple(_dec(x) for x in v["tuple"])
+        if set(v) == {"dict"}:
+            return {k: _dec(x) for k, x in v["dict"].items()}
+        raise AnchorError(f"C28.R4: malformed baseline value {v!r}")
+    return v
+
+
+def dump_state(db: MiniDB) -> dict:
+    """The abstract state of a model database as plain JSON (schema, non-empty tables' rows, user_version)."""
+    tables = {}
+    for n, d in sorted(db.schema.tables.items()):
+        tables[n] = {"cols": [{f: _enc(getattr(c, f)) for f in _COL_FIELDS} for c in d["cols"]], "pk": list(d["pk"]),
+                     "uniques": [list(u) for u in d["uniques"]], "extra": list(d["extra"])}
+    indexes = {n: {"table": v[0], "cols": list(v[1]), "unique": bool(v[2])} for n, v in sorted(db.schema.indexes.items())}
+    rows = {t: [{k: _enc(x) for k, x in sorted(r.items())} for r in rs] for t, rs in sorted(db.data.items()) if rs}
+    return {"tables": tables, "indexes": indexes, "rows": rows, "user_version": db.user_version}
+
+
+def load_state(st: dict) -> MiniDB:
+    try:
+        db = _fresh()
+        for n, d in st["tables"].items():
+            cols = [Col(*[_dec(c[f]) for f in _COL_FIELDS]) for c in d["cols"]]
+            db.schema.tables[n] = {"cols": cols, "pk": tuple(d["pk"]), "uniques": [tuple(u) for u in d["uniques"]], "extra": list(d["extra"])}
+            db.data[n] = []
+        for n, v in st["indexes"].items():
+            db.schema.indexes[n] = (v["table"], tuple(v["cols"]), bool(v["unique"]))
+        for t, rs in st["rows"].items():
+            db.data[t] = [{k: _dec(x) for k, x in r.items()} for r in rs]
+        db.user_version = int(st["user_version"])
+        return db
+    except (KeyError, TypeError, ValueError) as e:
+        raise AnchorError(f"C28.R4: malformed baseline state ({e!r}); regenerate with bin/gen_c28_baseline on the confirmed tree")
+
+
+def compute_baseline(repo: Any) -> dict:
+    """Per released version k of the given tree: the abstract database states a deployment of that release can be in
+    (tracked / legacy user_version / legacy bootstrapped), computed by this module's interpreter.  Used by bin/gen_c28_baseline only."""
+    _pkg, ms = _bind_migrations(repo, World(repo))
+    rn = Runner(repo)
+    vers = rn.versions(ms.sql)
+    if vers != list(range(1, len(vers) + 1)):
+        raise AnchorError(f"C28: baseline tree has versions {vers}, not 1..N")
+    other = [e for e in ms.entries if not e[0].endswith(".sql")]
+    states = []
+    for j in range(1, len(ms.sql) + 1):
+        subset = other + ms.sql[:j]
+        tracked = _fresh()
+        rn.run(tracked, subset)
+        legacy = _fresh()
+        for _n, t in ms.sql[:j]:
+            legacy.script(t)
+        legacy.user_version = vers[j - 1]
+        booted = load_state(dump_state(legacy))
+        rn.run(booted, subset)
+        states.append({"version": vers[j - 1], "tracked": dump_state(tracked), "legacy": dump_state(legacy), "bootstrapped": dump_state(booted)})
+    return {"migrator": "sqlite", "states": states}
+
+
+def load_baseline(rel: str = BASELINE_REL) -> dict:
+    import json
+
+    from ..report import VERIF
+
+    p = VERIF / rel
+    if not p.is_file():
+        raise AnchorError(f"C28.R4: released baseline {p} is missing (bin/gen_c28_baseline writes it from the confirmed tree)")
+    try:
+        b = json.loads(p.read_text())
+        vs = [s["version"] for s in b["states"]]
+    except (ValueError, KeyError, TypeError) as e:
+        raise AnchorError(f"C28.R4: released baseline {p} is unreadable: {e!r}")
+    if vs != list(range(1, len(vs) + 1)) or any(f not in s for s in b["states"] for f in BASELINE_FORMS):
+        raise AnchorError(f"C28.R4: released baseline {p} does not hold versions 1..K in the forms {BASELINE_FORMS}")
+    return b
+
+
+_R4_WHY = ("; a database that the released scripts left at version {k} has recorded those versions and never runs them again, so what an edited "
+           "released script now builds reaches fresh databases only: leave released scripts as they were and put the change into a new script")
+
+
+def analyse_set(repo: Any, ms: MigrationSet, label: str, baseline: dict | None = None) -> dict:
+    """All R1/R2/R3-header (and, given the released baseline, R4) verdicts for one migration set: {'checked': [(rule, instance, text, ok, why)], ...}."""
+    res: dict = {"problems": [], "checked": [], "states": 0, "released_states": 0, "final": None}
     rn = Runner(repo)
     sql = ms.sql
     n = len(sql)
@@ -2244,16 +2372,16 @@ def analyse_set(repo: Any, ms: MigrationSet, label: str) -> dict:
     res["final"] = ref_schema
     expect_rows = sorted(v for v in vers if isinstance(v, int) and v > 0)
 
-    def after(db: MiniDB, inst: str, desc: str) -> None:
+    def after(db: MiniDB, inst: str, desc: str, rule: str = "C28.R1", hint: str = "") -> None:
         same = db.schema.canon() == ref_schema.canon()
-        res["checked"].append(("C28.R1", f"{inst}:schema", f"{desc}: final schema equals the fresh-database schema", same, "" if same else f"final schema differs: {db.schema.diff(ref_schema)}"))
+        res["checked"].append((rule, f"{inst}:schema", f"{desc}: final schema equals the fresh-database schema", same, "" if same else f"final schema differs (this database vs fresh): {db.schema.diff(ref_schema)}{hint}"))
         rows = _migration_rows(db)
         okr = rows == expect_rows
-        res["checked"].append(("C28.R1", f"{inst}:recorded", f"{desc}: schema_migrations holds every script version exactly once ({expect_rows})", okr, "" if okr else f"recorded versions {rows}, expected {expect_rows}"))
+        res["checked"].append((rule, f"{inst}:recorded", f"{desc}: schema_migrations holds every script version exactly once ({expect_rows})", okr, "" if okr else f"recorded versions {rows}, expected {expect_rows}"))
         before, nlog = db.state_key(), len(db.log)
         ok2, why2 = guarded(f"{desc}, second run", lambda: rn.run(db, ms.entries))
         idem = ok2 and db.state_key() == before and len(db.log) == nlog
-        res["checked"].append(("C28.R1", f"{inst}:rerun", f"{desc}: running the migrations again changes nothing", idem,
+        res["checked"].append((rule, f"{inst}:rerun", f"{desc}: running the migrations again changes nothing", idem,
                                why2 or ("" if idem else f"second run executed {db.log[nlog:]} / changed the database state")))
 
     if ok:
@@ -2295,6 +2423,23 @@ def analyse_set(repo: Any, ms: MigrationSet, label: str) -> dict:
             res["checked"].append(("C28.R1", f"{inst}:applies", f"{desc}: remaining scripts are applicable, none is re-applied", okl, whyl))
             if okl:
                 after(db, inst, desc)
+    # ---- R4 released baseline: every state a released version left behind, upgraded with the current scripts
+    if ok and baseline is not None:
+        for st in baseline["states"]:
+            k = st["version"]
+            for form in BASELINE_FORMS:
+                db = load_state(st[form])
+                db.log.clear()
+                inst = f"released:{form}{k}"
+                desc = {"tracked": f"database left by the released scripts 1..{k} (recorded in schema_migrations)",
+                        "legacy": f"legacy database left by the released scripts 1..{k} (user_version={k}, no schema_migrations)",
+                        "bootstrapped": f"legacy database left by the released scripts 1..{k}, bootstrapped by that release"}[form]
+                res["released_states"] += 1
+                oku, whyu = guarded(desc, lambda: rn.run(db, ms.entries))
+                hint = _R4_WHY.format(k=k)
+                res["checked"].append(("C28.R4", f"{inst}:applies", f"{desc}: the current scripts it has not recorded are applicable", oku, whyu + (hint if whyu else "")))
+                if oku:
+                    after(db, inst, desc, "C28.R4", hint)
     # ---- R2 failure bookkeeping
     if ok:
         for i in range(n):
@@ -2534,15 +2679,21 @@ def run(chk: Any) -> None:
     _, run_fn = repo.func(f"{MIG}:run_migrations")
     _, ptv_fn = repo.func(f"{UTIL}:parse_target_version")
 
-    res = analyse_set(repo, ms, "repo")
-    anchor = {"C28.R1": (m, run_fn), "C28.R2": (m, run_fn), "C28.R3": (mu, ptv_fn)}
+    baseline = load_baseline()
+    res = analyse_set(repo, ms, "repo", baseline)
+    anchor = {"C28.R1": (m, run_fn), "C28.R2": (m, run_fn), "C28.R3": (mu, ptv_fn), "C28.R4": (m, run_fn)}
     for rule, inst, desc, ok, why in res["checked"]:
         mod, fn = anchor[rule]
         chk.ob(rule, desc, ok, m=mod, node=fn, fn=fn, instance=inst, reason=why)
     chk.floor("C28.R1", "start states executed symbolically (fresh, prefixes, legacy, legacy+bootstrapped)", res["states"], 1 + 3 * len(ms.sql) if all(o[3] for o in res["checked"] if o[0] != "C28.R2") else 1)
     chk.floor("C28.R2", "failure-injection runs (one per script)", sum(1 for o in res["checked"] if o[1].endswith(":propagates")), len(ms.sql) if all(o[3] for o in res["checked"] if o[1] == "start:fresh:applies") else 0)
+    fresh_ok = all(o[3] for o in res["checked"] if o[1] == "start:fresh:applies")
+    chk.floor("C28.R4", "released versions in the committed baseline (fixtures/c28/baseline/sqlite.json)", len(baseline["states"]), 4)
+    chk.floor("C28.R4", "released database states (tracked, legacy user_version, legacy bootstrapped per version) upgraded with the current scripts",
+              res["released_states"], len(BASELINE_FORMS) * len(baseline["states"]) if fresh_ok else 0)
     chk.exhaustive = True
     chk.extra["start_states"] = res["states"]
+    chk.extra["released_states"] = res["released_states"]
     final: Schema = res["final"]
     chk.extra["final_schema"] = final.describe()
 
@@ -2570,6 +2721,14 @@ def run(chk: Any) -> None:
         if not bad:
             raise AnchorError(f"C28.R1: the planted fixture ({FIXTURE_DIR}/{fxname}) was not reported; the rule is blind")
     chk.floor("C28.R1", "planted fixture defects reported (inapplicable statement, diverging schema, bad header sequence)", nbad, 2)
+    # planted positive example for R4: the released scripts with one statement moved from a later into an earlier released script
+    fx = analyse_set(repo, _load_fixture("edited_release"), "fixture", baseline)
+    bad4 = {i for r, i, _d, ok, _w in fx["checked"] if not ok and r == "C28.R4"}
+    # (a runner of the analysed tree that cannot even migrate the fixture's fresh database is reported by R1 above; R4 needs the fresh target)
+    fx_fresh = all(o[3] for o in fx["checked"] if o[1] == "start:fresh:applies")
+    if fx_fresh and not bad4:
+        raise AnchorError(f"C28.R4: the planted fixture ({FIXTURE_DIR}/edited_release) was not reported; the rule is blind")
+    chk.floor("C28.R4", "planted fixture (statement moved between released scripts): released states reported as not converging", len(bad4), 1 if fx_fresh else 0)
 
     chk.observe("`run_migrations` issues BEGIN through executescript and COMMIT through cursor.execute; atomicity of script + version row relies on "
                 "SQLite transactional DDL and on sqlite3 not auto-committing in between (modelled, not verified).")
@@ -2603,6 +2762,16 @@ TWINS = [
     Twin("store filters on a column no script creates", _PW, '"idle_since IS NULL"', '"idle_at IS NULL"', "C28.R3"),
     Twin("store reads a column no script creates", _PW, '"SELECT ctx FROM handlers WHERE run_id = ?"', '"SELECT context FROM handlers WHERE run_id = ?"', "C28.R3"),
     Twin("column dropped from the script but still written by the store", _S2, "ALTER TABLE handlers ADD COLUMN completed_at TEXT;\n", "", "C28.R3"),
+    # ---- R4 breaking (an already released script is edited; the seed's own two-file form is the planted fixture fixtures/c28/edited_release)
+    Twin("index dropped from a released script (databases at that release keep it, fresh ones never get it)", _S4, "CREATE INDEX IF NOT EXISTS idx_handlers_run_id ON handlers (run_id);\n", "", "C28.R4"),
+    Twin("index added to a released script instead of a new one", _S2, "ALTER TABLE handlers ADD COLUMN run_id TEXT;", "ALTER TABLE handlers ADD COLUMN run_id TEXT;\nCREATE INDEX IF NOT EXISTS idx_handlers_run ON handlers (run_id);", "C28.R4"),
+    Twin("column added to a released script instead of a new one", _S3, "-- migration: 3\n", "-- migration: 3\nALTER TABLE handlers ADD COLUMN idle_reason TEXT;\n", "C28.R4"),
+    Twin("column type changed in a released script", _S2, "ALTER TABLE handlers ADD COLUMN run_id TEXT;", "ALTER TABLE handlers ADD COLUMN run_id VARCHAR(64);", "C28.R4"),
+    Twin("bookkeeping table of the runner gains a column that existing databases never get", _PM, "    applied_at TEXT NOT NULL DEFAULT (datetime('now')),\n", "    applied_at TEXT NOT NULL DEFAULT (datetime('now')),\n    checksum TEXT,\n", "C28.R4"),
+    # ---- R4 benign
+    Twin("benign: released script re-laid out, commented, keywords in lower case", _S2, "ALTER TABLE handlers ADD COLUMN run_id TEXT;", "-- the run the handler belongs to\nalter table handlers\n    add column run_id text ;", None),
+    Twin("benign: index also created by the earlier released script (the later one still creates it IF NOT EXISTS)", _S2, "ALTER TABLE handlers ADD COLUMN run_id TEXT;", "ALTER TABLE handlers ADD COLUMN run_id TEXT;\nCREATE INDEX IF NOT EXISTS idx_handlers_run_id ON handlers (run_id);", None),
+    Twin("benign: statements of a released script reordered (same end state)", _S4, "CREATE INDEX IF NOT EXISTS idx_events_run_id_sequence ON events (run_id, sequence);\n\nCREATE INDEX IF NOT EXISTS idx_handlers_run_id ON handlers (run_id);\n", "CREATE INDEX IF NOT EXISTS idx_handlers_run_id ON handlers (run_id);\n\nCREATE INDEX IF NOT EXISTS idx_events_run_id_sequence ON events (run_id, sequence);\n", None),
     # ---- benign
     Twin("benign: IF NOT EXISTS removed (bookkeeping already prevents re-application)", _S4, "CREATE TABLE IF NOT EXISTS ticks (", "CREATE TABLE ticks (", None),
     Twin("benign: seeding guard removed (empty range)", _PM, "    if legacy_version > 0:\n", "    if True:\n", None),
